@@ -674,7 +674,7 @@ void HttpMessage::writeFile(const String& path, int begin, int end)
 	int n = 1;
 	file.seek(begin);
 	Long size = file.size();
-	if (begin != end)
+	if (begin != 0 || end != 0) // (0, 0) means the whole file; a one-byte range has begin == end
 		size = end - begin + 1;
 	int bytesSent = 0;
 	//HttpStatus status;
@@ -710,9 +710,9 @@ bool HttpMessage::putFile(const String& path, int begin, int end)
 	else
 	{
 		Long size = file.size();
-		if (end == 0)
+		if (end == 0 || end >= size) // open ended, or a last position beyond the end of the file (RFC 7233: use the last byte)
 			end = int(size - 1);
-		if (end <= begin || begin < 0 || end > size)
+		if (end < begin || begin < 0 || begin >= size)
 		{
 			setHeader("Content-Length", "0");
 			setHeader("Content-Range", String::f("bytes */%lli", size));
